@@ -406,9 +406,22 @@ def build_class(prog, rec, W, decorated=True):
     cls = type(name, (object,), ns)
     cls.__module__ = CLASSES_MODULE
     setattr(_mod, name, cls)
-    if decorated and prog.get('params'):
+    if decorated and (prog.get('params') or prog.get('params_fault')):
         from playback.tape_recorder import RecordingParameters
-        R.recording_params(RecordingParameters(**prog['params']))(cls)
+        kw = dict(prog.get('params') or {})
+        if prog.get('params_fault') == 'rate_raises':
+            class BadRate(RecordingParameters):
+                def _get(self):
+                    raise RuntimeError('sampling rate lookup failing on purpose')
+
+                def _set(self, v):
+                    pass
+                sampling_rate = property(_get, _set)
+            R.recording_params(BadRate(**kw))(cls)
+        else:
+            if prog.get('params_fault') == 'rate_str':
+                kw['sampling_rate'] = '0.25'
+            R.recording_params(RecordingParameters(**kw))(cls)
     W.cls = cls
     if not hasattr(W, 'thread_factory'):
         W.thread_factory = lambda target, args: threading.Thread(target=target, args=args)
